@@ -83,7 +83,11 @@ Record cfg := mkCfg {
   c_interval : N;                 (* snapshot_interval; 0 = no automatic snapshots *)
   c_max_wal : N;                  (* max_wal_size_bytes; 0 = no rotation *)
   c_cap : N;                      (* max_elements (slots incl. tombstones) *)
-  c_fsize : op -> N               (* frame size *)
+  c_fsize : op -> N;              (* frame size *)
+  c_clock : N -> N                (* file_id(): the id the n-th file creation gets.  The code reads the
+                                     microsecond clock, so two creations can get the SAME id; the theorems
+                                     assume `forall n, c_clock c n = n` (distinct ids), C09_same_file_id_refuted
+                                     shows what happens otherwise *)
 }.
 
 (* ---------------------------------------------------------------------------------------------- *)
@@ -369,8 +373,8 @@ Definition tstep (c : cfg) (st : state) (t : nat) (p : phase) : option (state * 
   | WAppended cl es =>
       if negb (c_max_wal c =? 0) && (c_max_wal c <=? bytes) then
         (* WalWriter::create(new) — the file exists but is not yet listed *)
-        Some (mkSt nx sto slots cnt act bytes (fset files fid []) snaps man (fid + 1) gate mlock thr,
-              WRotFile cl es fid, [])
+        Some (mkSt nx sto slots cnt act bytes (fset files (c_clock c fid) []) snaps man (fid + 1) gate mlock thr,
+              WRotFile cl es (c_clock c fid), [])
       else Some (st, WLogged cl es, if is_ins cl then [Rel LWal] else [])
   | WRotFile cl es nf =>
       match mlock with
@@ -407,8 +411,8 @@ Definition tstep (c : cfg) (st : state) (t : nat) (p : phase) : option (state * 
         Some (st, SCaptured (nx - 1) sto, [Acq LSnap MW; Acq LStore MR; Rel LStore; Rel LSnap])
       else None
   | SCaptured last copy =>
-      Some (mkSt nx sto slots cnt act bytes files (fset snaps fid (last, copy)) man (fid + 1) gate mlock thr,
-            SFile last copy fid, rd LIdx)
+      Some (mkSt nx sto slots cnt act bytes files (fset snaps (c_clock c fid) (last, copy)) man (fid + 1) gate mlock thr,
+            SFile last copy (c_clock c fid), rd LIdx)
   | SFile last copy f =>
       match mlock with
       | Some _ => None
